@@ -132,7 +132,9 @@ CONFIGS = [
     ("mapped", "", {"User": "MappedT"}, {l: {"type_mappings": {"User": "MappedT"}} for l in common.LANGS}),
     ("prefixed", "Pre", {}, {"swift": {"prefix": "Pre"}, "kotlin": {"prefix": "Pre"}}),
     ("prefixed_mapped", "Pre", {"User": "MappedT"}, {l: {"prefix": "Pre", "type_mappings": {"User": "MappedT"}} for l in ("swift", "kotlin")}),
+    ("mapped_container", "", {}, {l: {"type_mappings": {"Vec<u8>": n}} for l, n in (("typescript", "Uint8Array"), ("go", "Blob"), ("python", "bytes"))}),
 ]
+VECU8 = {"typescript": "Uint8Array", "go": "Blob", "python": "bytes"}
 
 
 def run_trees(chk, cases, configs=("base",), positions=("field", "vfield", "payload", "alias")):
@@ -142,7 +144,7 @@ def run_trees(chk, cases, configs=("base",), positions=("field", "vfield", "payl
     for cname, prefix, mapping, cfgs in CONFIGS:
         if cname not in configs:
             continue
-        langs = common.LANGS if not cname.startswith("prefixed") else ["swift", "kotlin"]
+        langs = ["swift", "kotlin"] if cname.startswith("prefixed") else ["typescript", "go", "python"] if cname == "mapped_container" else common.LANGS
         results = observe.generate(srcs, langs=langs, cfgs=cfgs)
         for ci, ((tree, da, bare), per, src) in enumerate(zip(cases, results, srcs)):
             for lang in langs:
@@ -171,7 +173,8 @@ def run_trees(chk, cases, configs=("base",), positions=("field", "vfield", "payl
                         continue
                     opt, ty = obs[pos]
                     events.append({"lang": lang, "pos": pos, "rust": tree, "default": bool(bare) and pos in ("field", "vfield"),
-                                   "optional": bool(opt), "ty": ty, "prefix": pfx, "mapping": mapping, "aliases": al})
+                                   "optional": bool(opt), "ty": ty, "prefix": pfx, "mapping": mapping, "aliases": al,
+                                   "vecu8": VECU8[lang] if cname == "mapped_container" else ""})
                     meta.append((lang, cname, pos, tree, da, src, None, ci))
     return events, meta
 
